@@ -1613,7 +1613,9 @@ def eq(left: Any, right: Any) -> bool:
       or (isinstance(left, tuple) and isinstance(right, tuple))):
     if len(left) != len(right):
       return False
-    for x, y in zip(left, right):
+    # NOTE: iterating a pg.List evaluates inferred values, as `__getitem__`
+    # does for pg.Dict below: compare the symbolic form.
+    for x, y in zip(_sym_elements(left), _sym_elements(right)):
       if ne(x, y):
         return False
     return True
@@ -1751,9 +1753,12 @@ def lt(left: Any, right: Any) -> bool:
   if isinstance(left, (int, float, bool, str)):
     return left < right
   elif isinstance(left, list):
+    # NOTE: like `eq`, compare the symbolic form of symbolic containers
+    # (`__getitem__` / iteration would evaluate inferred values).
+    left_values, right_values = _sym_elements(left), _sym_elements(right)
     min_len = min(len(left), len(right))
     for i in range(min_len):
-      l, r = left[i], right[i]
+      l, r = left_values[i], right_values[i]
       if not eq(l, r):
         return lt(l, r)
     # `left` and `right` are equal so far, so `left` is less than `right`
@@ -1762,12 +1767,16 @@ def lt(left: Any, right: Any) -> bool:
   elif isinstance(left, dict):
     lkeys = list(left.keys())
     rkeys = list(right.keys())
+    left_item = (
+        left.sym_getattr if isinstance(left, Symbolic) else left.__getitem__)
+    right_item = (
+        right.sym_getattr if isinstance(right, Symbolic) else right.__getitem__)
     min_len = min(len(lkeys), len(rkeys))
     for i in range(min_len):
       kl, kr = lkeys[i], rkeys[i]
       if kl == kr:
-        if not eq(left[kl], right[kr]):
-          return lt(left[kl], right[kr])
+        if not eq(left_item(kl), right_item(kr)):
+          return lt(left_item(kl), right_item(kr))
       else:
         return kl < kr
     # `left` and `right` are equal so far, so `left is less than `right`
@@ -1776,6 +1785,13 @@ def lt(left: Any, right: Any) -> bool:
   elif hasattr(left, 'sym_lt'):
     return left.sym_lt(right)
   return left < right
+
+
+def _sym_elements(value: Union[list, tuple]) -> Union[list, tuple]:
+  """Returns the elements of a sequence in their symbolic form."""
+  if isinstance(value, Symbolic):
+    return list(value.sym_values())
+  return value
 
 
 def gt(left: Any, right: Any) -> bool:
